@@ -101,6 +101,8 @@ def finish(mod, pid, tier, seed, phases, results, wall, write_evidence=True):
     for hit, cnt, classes in known_hit.values():
         print('KNOWN-FINDING: property=%s %s (seen %d times in %d signature classes this run)'
               % (pid, hit['what'], cnt, classes))
+    for ent in violations[25:400]:
+        write_replay(pid, tier, ent)
     for ent in violations[:25]:
         path = write_replay(pid, tier, ent)
         print('VIOLATION property=%s replay=%s' % (pid, path))
